@@ -31,6 +31,7 @@ pub fn run(name: &str) -> bool {
 
 /// Known-finding ids (see /verif/known_findings.txt)
 pub const KF_STR_4096: u32 = 5002;
+pub const KF_SEND_PARENT_STATE: u32 = 5003;
 
 /// for every u64: read_uint(write_uint(v)) == v, no error on either side, all written bytes consumed
 pub fn h_c05_uint() {
@@ -384,7 +385,7 @@ pub fn h_c05_content() {
         4 => { let mut e = ForEach::new(); e.content = x; e.index = "i".to_string(); e.item = "it".to_string(); e.array = Data::Source(SourceCode::new("arr", 9)); block.push(Box::new(e)); }
         5 => {
             let mut e = SendParameters::new();
-            e.name = "sid".to_string(); e.name_location = "loc".to_string();
+            e.name = "sid".to_string(); e.name_location = "loc".to_string(); e.parent_state_name = "st".to_string();
             e.event = Data::String("ev".to_string()); e.event_expr = Data::None();
             e.target = Data::String("#_internal".to_string()); e.target_expr = Data::Source(SourceCode::new("t", 1));
             e.type_value = Data::String("scxml".to_string()); e.type_expr = Data::None();
@@ -432,6 +433,11 @@ pub fn h_c05_content() {
         _ => { let (p, q) = (as_t::<Assign>(&a[0]).unwrap(), as_t::<Assign>(&o[0]).unwrap()); data_same(&p.location, &q.location) && data_same(&p.expr, &q.expr) }
     };
     vnd_check(574, same);
+    // known finding 5003: the state name a <send> needs to generate "<state>.<n>" ids for idlocation is not part of the image
+    if kind == 5 {
+        let (p, q) = (as_t::<SendParameters>(&a[0]).unwrap(), as_t::<SendParameters>(&o[0]).unwrap());
+        vnd_check_kf(575, p.parent_state_name == q.parent_state_name, KF_SEND_PARENT_STATE, true);
+    }
     let r2 = as_t::<Raise>(&a[1]).unwrap();
     let b = f2.executableContent.get(&77).unwrap();
     vnd_check(575, r2.event == "second" && b.len() == 1 && as_t::<Raise>(&b[0]).unwrap().event == "other");
